@@ -10,12 +10,13 @@ What runs:
      purge) is *expected* to violate the fixpoint: its counter-example is concretised into a log and
      replayed on the real code (a reproduced one is a genuine defect, J14).
   2. Histories derived from every log under /repo/tests (full, prefixes, deletions, duplications,
-     splices / interleavings of two logs), eavesdropping off and on.  For include_expired on and
+     splices / interleavings of two logs, with the RQ/RP exchanges of a polling gateway), eavesdropping off and on.  For include_expired on and
      off (each on a gateway loaded afresh from the history through the real FileTransport):
         get_state -> fresh Gateway (clock pinned to the source's) -> _restore_cached_packets ->
         get_state -> the same snapshot again -> get_state -> the snapshot back into its source ->
         get_state;   every observation after the loop has drained (J1).
-     Every snapshot line is re-decoded with the library's decoder (C16c).
+     Every snapshot line is re-decoded with the library's decoder (C16c); "expired" is judged twice: by the
+     library's own verdict and - independently - by C14's lifetime rule on the packet's age and lifetime.
   3. TLC (SnapshotTrace) judges every operation trace.
 """
 from __future__ import annotations
@@ -34,7 +35,7 @@ from harness import fakes, tlc, vloop
 from harness.report import Check, main_wrapper
 
 PID = "C16"
-HOWS = ("full", "prefix", "delete", "duplicate", "splice", "interleave")
+HOWS = ("full", "prefix", "delete", "duplicate", "splice", "interleave")   # + "polled" (plan)
 
 
 def mc_jobs(tier: str) -> list[tuple[str, str, str | None]]:
@@ -90,6 +91,8 @@ def plan(tier: str, rnd: random.Random) -> list[dict]:
     big = 320 if tier == "quick" else 2000
     per_log = 2 if tier == "quick" else 10
     out: list[dict] = []
+    extra: list[tuple[int, dict]] = []   # drawn from a stream of their own: the plan of the other derivations is unchanged
+    rnd2 = random.Random(repr(rnd.getstate()[1][:8]))  # from the seed, without drawing from rnd
     for f in names:
         base = logs[f]
         if len(base) > big:
@@ -110,14 +113,25 @@ def plan(tier: str, rnd: random.Random) -> list[dict]:
             if how == "full" and (tier != "quick" or len(out) % 4 == 1):
                 # the same history with the state read once while its last packets are fresh, then aged
                 out.append(dict(out[-1], how="full+aged", age_s=float(rnd.choice((900, 3600, 86400)))))
+        # the log as a polling gateway would have heard it (RQ / RP exchanges after the controller's announcements;
+        # RP|1F09 carries its own lifetime), read at its end and once more later
+        for _ in range(1 if tier == "quick" else 3):
+            lines = X.derive(rnd2, base[:big], [], "polled")
+            if lines:
+                hh = {"log": os.path.relpath(f, X.tests_dir()), "how": "polled", "other": "", "eav": rnd2.choice((0, 0, 1)),
+                      "lines": lines}
+                extra.append((len(out), hh))
+                extra.append((len(out), dict(hh, how="polled+aged", age_s=float(rnd2.choice((300, 900, 3600, 86400))))))
+    for pos, hh in reversed(extra):
+        out.insert(pos, hh)
     return out
 
 
 async def run_all(hist: list[dict], pid: X.Interner, sid: X.Interner, budget_s: float) -> list[dict]:
     items = []
-    t0 = time.time()
-    for hh in hist:
-        if time.time() - t0 > budget_s:
+    t0 = time.process_time()   # CPU seconds of this process: on a loaded machine the plan is not cut short (its tail
+    for hh in hist:            # - tests/tests/systems/* - would never run), the run merely takes longer
+        if time.process_time() - t0 > budget_s:
             break
         items.append(await X.run_history(hh["lines"], hh["eav"], pid, sid, age_s=hh.get("age_s", 0.0)))
     return items
@@ -188,7 +202,18 @@ def main(tier: str, replay: str | None) -> None:
             canary["ops"][2]["pk"].remove(gone)
             canary["chrono"] = canary["uniq"] = 1
             break
-    batch = items + ([canary] if canary else [])
+    # canary 2: a copy in which one packet of an include_expired=False snapshot has just reached twice its lifetime
+    # plus the grace (its recorded library verdict untouched) must be rejected by the lifetime rule
+    canary2 = None
+    for it in items:
+        hit = [(k, j) for k, o in enumerate(it["ops"]) if o["op"] == "snap" and o["ok"] and not o["ie"]
+               for j, lf in enumerate(o["life"]) if lf >= 0 and o["pk"][j] not in o["tc"]]
+        if hit:
+            canary2 = json.loads(json.dumps(it))
+            k, j = hit[0]
+            canary2["ops"][k]["age"][j] = 2 * canary2["ops"][k]["life"][j] + X.GRACE_MS
+            break
+    batch = items + ([canary] if canary else []) + ([canary2] if canary2 else [])
     res = tlc.validate_batch("SnapshotTrace", batch, workers=4 if quick else 8, chunk=400)
     rej = dict(res["rejects"])
     if canary:
@@ -196,6 +221,10 @@ def main(tier: str, replay: str | None) -> None:
         if not any(str(f[1]).startswith("C16a:packets-lost") or str(f[1]).startswith("C16a:only-expired") for f in got):
             raise tlc.MachineryFailure(f"canary (dropped packet) not rejected: {got}")
 
+    if canary2:
+        got = rej.pop(len(batch) - 1, ())
+        if not any(str(f[1]) == "C16c:packet-past-twice-its-lifetime-in-snapshot" for f in got):
+            raise tlc.MachineryFailure(f"canary (packet aged to twice its lifetime) not rejected: {got}")
     n_ops = sum(len(i["ops"]) for i in items)
     n_raised = sum(1 for i in items for o in i["ops"] if not o["ok"])
     classes: dict[str, int] = {}
@@ -248,7 +277,7 @@ def main(tier: str, replay: str | None) -> None:
             "distinct_packets_in_snapshots": len(pid.rev) - 1,
             "distinct_schemas": len(sid.rev) - 1,
             "failure_classes_seen": classes,
-            "corrupted_traces_rejected": 1 if canary else 0,
+            "corrupted_traces_rejected": (1 if canary else 0) + (1 if canary2 else 0),
             "trace_validation_states": res["states"],
             "samples": [
                 {"history": {k: hist[0][k] for k in ("log", "how", "eav")}, "first_lines": hist[0]["lines"][:3],
